@@ -220,7 +220,7 @@ class C18(object):
         names = ['SIM', 'SIMEX1', 'PC', 'PC']
         k = rng.choice([2, 2, 3])
         return {'kind': 'embed_book', 'builders': [rng.choice(names) for _ in range(k)],
-                'unused_ext': rng.random() < 0.5, 'maxtime': rng.randint(3, 6),
+                'unused_ext': (idx // 6) % 2 == 1, 'maxtime': rng.randint(3, 6),
                 'book_exogenous': rng.random() < 0.5}
 
     def run_case(self, case):
@@ -395,6 +395,13 @@ class C18(object):
             return {'verdict': 'violated', 'shape': shape, 'counters': rec.counters, 'violations': rec.violations,
                     'nontrivial': True}
         JV = joint.EquationSolver.TimeSeries
+        # the economies the builders were asked to put INTO this model must be in it
+        have = [c_.Code for c_ in joint.CountryList]
+        missing = ['B%d' % i_ for i_ in range(len(case['builders'])) if 'B%d' % i_ not in have]
+        if missing:
+            rec.violate('economy_not_in_the_model_it_was_built_into', {'builders': case['builders'], 'countries_in_the_joint_model': have,
+                                                                       'missing': missing, 'unused_ext': case['unused_ext']})
+            return {'verdict': 'violated', 'shape': shape, 'counters': rec.counters, 'violations': rec.violations, 'nontrivial': True}
         jE = Q.qsolve(joint.FinalEquations, JV)
         for i, (b, mod) in enumerate(alone):
             aE = Q.qsolve(mod.FinalEquations, mod.EquationSolver.TimeSeries)
